@@ -186,7 +186,7 @@ def run_one(exe, c, timeout=RUN_TIMEOUT):
 
 def parse_out(text):
     o = {"hooks": None, "points": {}, "init": [], "iv": {}, "calls": [], "T": [], "lp": {}, "lv": {}, "lnv": None, "result": None,
-         "final": None, "complete": True, "missing_parents": 0, "refresh": []}
+         "final": None, "complete": True, "missing_parents": 0, "refresh": [], "collect": []}
     for line in text.split("\n"):
         t = line.split()
         if not t:
@@ -194,9 +194,9 @@ def parse_out(text):
         k = t[0]
         if k == "T":
             o["T"].append(line)
-            if t[3] == "refresh":      # logged by the driver's candidates lambda (mode cs), hooks or not
+            if t[3] in ("refresh", "collect"):      # refresh: logged by the driver's candidates lambda (mode cs), hooks or not
                 bar = t.index("|")
-                o["refresh"].append((int(t[1]), set(int(v) for v in t[bar + 1:t.index("|", bar + 1)])))
+                o[t[3]].append((int(t[1]), set(int(v) for v in t[bar + 1:t.index("|", bar + 1)])))
         elif k == "CALL":
             bar = t.index("|")
             n = int(t[5])
@@ -242,6 +242,11 @@ def tsan_reports(err):
             if m:
                 site = m.group(1)
                 break
+        if site == "unknown":      # frames of the header-only templates carry no file name
+            for fn in ("constructCommon", "loadNeededValues", "CandidateManager", "CompleteStorage"):
+                if fn in b:
+                    site = fn
+                    break
         reps.append((kind, site))
     return reps
 
@@ -313,8 +318,12 @@ def blackbox(c, o, stats):
                 for a, b in zip(cp, cp[1:]):
                     if b["enter"] < a["exit"]:
                         ok = False
-                    elif c["mode"] == "cs" and not any(a["exit"] < tk < b["enter"] and p in ps for tk, ps in o["refresh"]):
-                        ok = False
+                    elif c["mode"] == "cs":
+                        # with hooks: the sample of the earlier call must have been collected before the list that proposes p again
+                        tcol = min([tk for tk, ps in o["collect"] if p in ps and tk > a["exit"]] or [a["exit"] if not o["hooks"] else None],
+                                   key=lambda x: (x is None, x))
+                        if tcol is None or not any(tcol < tk < b["enter"] and p in ps for tk, ps in o["refresh"]):
+                            ok = False
                 if ok:
                     reproposed.append(p)
                 else:
